@@ -5,7 +5,6 @@ import (
 	"fmt"
 	"os"
 	"sort"
-	"strings"
 	"time"
 
 	"github.com/dolthub/dolt/go/libraries/doltcore/doltdb"
@@ -264,7 +263,6 @@ func c09Kinds(c *rig.Ctx) {
 		"prollynode/value_items(out-of-band field)", "artifacts/key_items(address field)"} {
 		c.Require(rn.derefs[k] > 0, "field "+k+" was never dereferenced by a loader")
 	}
-	_ = strings.Join
 }
 
 // c09SQL feeds real objects produced by SQL workloads to the same oracles.
